@@ -19,13 +19,13 @@ CLAIMED = {
          'Theorems for every line: foldline(l) is its segments joined by CR LF SP, the segments concatenate to l, every '
          'segment has at most 74 octets (so every physical line has at most 75, a continuation = one added space + a '
          'segment of whole characters), unfolding the folded line - or any other fold placement - restores l exactly; '
-         'UTF-8 encoding distributes over the cuts. limit, separator and slice width are regenerated from parser.py each '
+         'UTF-8 encoding distributes over the cuts; lines_roundtrip: unfolding and splitting the CRLF-joined folded lines of a component returns exactly its content lines. limit, separator and slice width are regenerated from parser.py each '
          'run; the theorem is generic in any limit >= 5, so benign retuning keeps the proof. Both foldline paths, the '
          'unfold scanner and the newline splitter are tied to the code by correspondence (every length 0..240/400 x '
          'widths 1..4, every boundary alignment, all strings <= 6 over {CR LF SP HT a} against Python re).',
          'Trusted: Lean kernel; tools/extract.py; hand models of foldline (both paths), uFOLD.sub and NEWLINE.split tied '
          'by correspondence; Char.utf8Size as the octet count; python -O (assert stripped) not modelled; '
-         'Contentlines-level inverse is checked by correspondence and oracle, not yet by a theorem.',
+         'lines_roundtrip covers Contentlines.to_ical/from_ical for lines that start with a name character.',
          'DESIGN.md 6/C06'),
 }
 
